@@ -54,6 +54,18 @@ def run(prop, tier):
         viols = list(R.viol)
         for v in viols:
             v["workload"] = R.workload
+        # the same sweep on the library AS SHIPPED: the repository's own CMake Release build, hook guard not defined (every other build of
+        # this framework defines it, and an error path may differ between the two)
+        exe2 = build.build_cfg("Release", "static", guard=False)
+        out2 = os.path.join(wd, "faults_shipped")
+        C.run_driver(exe2, "faults", kinds * chunks, out2, args=args, chunk=1)
+        R2 = C.parse_out(out2)
+        R2.workload = dict(profile="faults", args=args, flavour="cfg:Release:static:noguard")
+        for v in R2.viol:
+            v["workload"] = R2.workload
+            v["key"] += "|unhooked_release_build"
+        viols += R2.viol
+        shipped_points = sum(int(dict(x.split("=") for x in line.split()[2:])["offsets"]) for case, line in R2.lines.get("RES", []))
         stats = collections.Counter()
         per_kind = collections.defaultdict(lambda: dict(size=0, offsets=0, exhaustive=False, threw=0, returned=0))
         for case, line in R.lines.get("RES", []):
@@ -71,6 +83,7 @@ def run(prop, tier):
                    samples=[dict(object_kind=k, file_size=v["size"], offsets_tried=v["offsets"], every_offset=v["exhaustive"], threw=v["threw"], returned=v["returned"]) for k, v in sorted(per_kind.items())],
                    exhaustive=all(v["exhaustive"] for k, v in per_kind.items() if k <= 3),
                    exhaustive_scope="every byte offset 0..size+2 of object kinds %s; larger objects strided" % [k for k, v in sorted(per_kind.items()) if v["exhaustive"]],
+                   fault_points_repeated_on_unhooked_release_build=shipped_points, destination_faults_on_unhooked_release_build={k[5:]: v for k, v in R2.cnt.items() if k.startswith("dest:")},
                    faults_by_section=faults_by_section, destination_faults=dest, child_end_status=dict(R.status), **dict(stats))
         inconc = None
         if total < 3000:
